@@ -6,7 +6,7 @@ def _load(name):
     sp = importlib.util.spec_from_file_location(name, os.path.join(os.path.dirname(__file__), name + '.py'))
     m = importlib.util.module_from_spec(sp); sp.loader.exec_module(m); return m
 _c15 = _load('C15')
-UNITS = [dict(u, enforce=['acknowledge_pdu']) if u['name'] == 'llbuf' else dict(u) for u in _c15.UNITS]
+UNITS = [dict(u, enforce=['acknowledge_pdu']) if u['name'] == 'llbuf' else dict(u) for u in _c15.UNITS if u['name'] in ('llbuf', 'nrf52_isr')]
 
 META = dict(
     level='proof',
